@@ -202,6 +202,34 @@ def run(ctx):
         if i < 2:
             ctx.sample("random-range-set", {"header": header, "size": size, "model": resolve(sp, size)})
 
+    # ---- many satisfiable specs at once (counts around powers of two), shuffled: disjoint, touching, with one-byte gaps
+    for i in range(ctx.scale(300, 20_000)):
+        k = rng.choice([15, 16, 17, 18, 31, 32, 33, 64, 100, 257])
+        gap = rng.choice([1, 2, 3, 10])
+        width = rng.choice([1, 1, 2, 5])
+        size = rng.choice([k * (gap + width) + 7, 10 ** 6, k * (gap + width) // 2])
+        specs = [(j * (gap + width - 1), j * (gap + width - 1) + width - 1) for j in range(k)]
+        rng.shuffle(specs)
+        header = "bytes=" + ",".join(f"{a}-{b}" for a, b in specs)
+        nt = judge_grammar(ctx, header, size, tokenize(header))
+        ctx.mon("many-specs")
+        ctx.case((header, size))
+    # ---- numbers beyond CPython's 4300-digit conversion limit: larger than any file. The code may refuse them outright (400);
+    #      if it accepts them they mean what any number larger than the file means
+    for i in range(ctx.scale(200, 4000)):
+        size = rng.choice([0, 1, 10, 4623, 10 ** 6])
+        d = "".join(rng.choice("123456789") for _ in range(rng.choice([4301, 5000, 20000])))
+        tmpl = rng.choice(["bytes=%s-", "bytes=-%s", "bytes=0-%s", "bytes=%s-%s", "bytes=0-1,%s-", "bytes=2-3,-%s", "bytes=1-%s,5-6"])
+        header = tmpl.replace("%s", d)
+        exp, spans = resolve(tokenize(tmpl.replace("%s", "9" * 40)), size)
+        got, val = call(header, size)
+        ctx.mon("beyond-int-limit")
+        ok = got == "400" or (exp == "either" and got == "416") or (got == exp and (exp != "ok" or val == spans))
+        if not ok:
+            ctx.violation(f"outcome|expected=400-or-{exp}|got={got}|number-beyond-int-limit", {"header": tmpl.replace("%s", "<%d digits>" % len(d)), "size": size},
+                          f"model {exp} {spans!r}; real {got} {val!r}")
+        ctx.case((tmpl, len(d), size))
+
     # ---- arbitrary text
     n_txt = ctx.scale(20_000, 600_000)
     alphabet = "0123456789-,= \tbytesxyzBY;:\x00\xe9-,-,0011"
